@@ -68,7 +68,7 @@ def build_alphabet(lab):
     leaves = [t for t in universe.leaf_templates(model, vocab) if t.name in pm.templates]
     t = leaves[0]
     for _ in range(200):
-        f1 = vocab.valid_string(t, rng, pool=["ophelia", "yorick"], small=True)
+        f1 = vocab.valid_string(t, rng, pool=["oph.elia", "yor.ick"], small=True)   # (folder names may contain a dot)
         if model.natural(f1) is t and not model.is_search_string(f1) and f1.split("/")[-1] not in model.alias:
             break
     segs = f1.split("/")
@@ -90,6 +90,8 @@ def build_alphabet(lab):
         elif nopath is None:
             nopath = a
     al = {"F1": f1, "F2": f2, "V": anc[0], "T": anc[1], "N": nopath, "U": "bla/bla"}
+    if len(anc) > 2:
+        al["A"] = anc[2]     # the folder above the task (an open, possibly dotted, name)
     # a second, unrelated file (isolation)
     for _ in range(200):
         g = vocab.valid_string(t, rng, pool=["claudius"], small=True)
@@ -103,7 +105,7 @@ def ops_alphabet(al):
     ops = []
     for r in al:
         ops.append(("create", r, None))
-    for r in ("F1", "V"):
+    for r in ("F1", "V", "A"):
         if r in al:
             ops.append(("create", r, "k1"))
     for r in al:
